@@ -236,3 +236,199 @@ func (fs FactSet) intFact(v ssa.Value, pred func(op token.Token, k int64) bool) 
 	}
 	return false
 }
+
+// CallersOf lists the call sites of fn (static callee) in own code.
+func (P *Program) CallersOf(fn *ssa.Function) []ssa.CallInstruction {
+	if P.callersCache == nil {
+		P.callersCache = map[*ssa.Function][]ssa.CallInstruction{}
+		for _, f := range P.Funcs {
+			for _, c := range allCalls(f) {
+				if callee := c.Common().StaticCallee(); callee != nil {
+					P.callersCache[callee] = append(P.callersCache[callee], c)
+				}
+			}
+		}
+	}
+	return P.callersCache[fn]
+}
+
+// interOrigins follows v backwards through Leaves and, for parameters of own functions, through all
+// call sites of the function (interprocedural, bounded depth). Returns the non-parameter frontier.
+func interOrigins(P *Program, v ssa.Value, o leafOpts, depth int) []ssa.Value {
+	var out []ssa.Value
+	seen := map[ssa.Value]bool{}
+	var walk func(v ssa.Value, d int)
+	walk = func(v ssa.Value, d int) {
+		for _, l := range Leaves(v, o) {
+			if seen[l] {
+				continue
+			}
+			seen[l] = true
+			if p, ok := l.(*ssa.Parameter); ok && d > 0 {
+				fn := p.Parent()
+				idx := -1
+				for i, q := range fn.Params {
+					if q == p {
+						idx = i
+					}
+				}
+				callers := P.CallersOf(fn)
+				if idx >= 0 && len(callers) > 0 {
+					for _, c := range callers {
+						args := c.Common().Args
+						if idx < len(args) {
+							walk(args[idx], d-1)
+						}
+					}
+					continue
+				}
+			}
+			out = append(out, l)
+		}
+	}
+	walk(v, depth)
+	return out
+}
+
+// ownClosure: fn plus every own function reachable through static calls and closures.
+func ownClosure(roots ...*ssa.Function) []*ssa.Function {
+	seen := map[*ssa.Function]bool{}
+	var out []*ssa.Function
+	var walk func(fn *ssa.Function)
+	walk = func(fn *ssa.Function) {
+		if fn == nil || seen[fn] || fn.Blocks == nil {
+			return
+		}
+		pk := fn.Package()
+		if pk == nil && fn.Parent() != nil {
+			pk = fn.Parent().Package()
+		}
+		if pk == nil || !isOwnPath(pk.Pkg.Path()) {
+			return
+		}
+		seen[fn] = true
+		out = append(out, fn)
+		for _, b := range fn.Blocks {
+			for _, ins := range b.Instrs {
+				switch x := ins.(type) {
+				case ssa.CallInstruction:
+					walk(x.Common().StaticCallee())
+				case *ssa.MakeClosure:
+					walk(x.Fn.(*ssa.Function))
+				}
+			}
+		}
+	}
+	for _, r := range roots {
+		walk(r)
+	}
+	return out
+}
+
+// dataDeps: backward data-dependence closure of v inside its function (operands of defining
+// instructions; for loads, the values stored to the same root cell; for slices, their backing).
+func dataDeps(v ssa.Value) map[ssa.Value]bool {
+	seen := map[ssa.Value]bool{}
+	var walk func(v ssa.Value)
+	walk = func(v ssa.Value) {
+		if v == nil || seen[v] {
+			return
+		}
+		seen[v] = true
+		ins, ok := v.(ssa.Instruction)
+		if !ok {
+			return
+		}
+		for _, op := range ins.Operands(nil) {
+			if *op != nil {
+				walk(*op)
+			}
+		}
+		// memory: loads (and slices handed to callees such as append) see every value stored through
+		// any address derived from the same root
+		var memRoot ssa.Value
+		if u, ok := v.(*ssa.UnOp); ok && u.Op == token.MUL {
+			memRoot = addrRoot(u.X)
+		}
+		switch x := v.(type) {
+		case *ssa.Slice:
+			memRoot = addrRoot(x.X)
+		case *ssa.MakeSlice, *ssa.Alloc:
+			memRoot = v
+		}
+		if memRoot != nil {
+			root := memRoot
+			if rs := root.Referrers(); rs != nil {
+				var visitAddr func(a ssa.Value, depth int)
+				visitAddr = func(a ssa.Value, depth int) {
+					if depth > 4 {
+						return
+					}
+					rr := a.Referrers()
+					if rr == nil {
+						return
+					}
+					for _, r := range *rr {
+						switch x := r.(type) {
+						case *ssa.Store:
+							if x.Addr == a {
+								walk(x.Val)
+							}
+						case *ssa.IndexAddr:
+							visitAddr(x, depth+1)
+						case *ssa.FieldAddr:
+							visitAddr(x, depth+1)
+						case *ssa.Slice:
+							visitAddr(x, depth+1)
+						}
+					}
+				}
+				visitAddr(root, 0)
+			}
+		}
+	}
+	walk(v)
+	return seen
+}
+
+func addrRoot(a ssa.Value) ssa.Value {
+	for i := 0; i < 10; i++ {
+		switch x := a.(type) {
+		case *ssa.IndexAddr:
+			a = x.X
+		case *ssa.FieldAddr:
+			a = x.X
+		case *ssa.Slice:
+			a = x.X
+		default:
+			return a
+		}
+	}
+	return a
+}
+
+// phiAlternatives returns the incoming (value, facts-on-edge) pairs of v when it is a Phi, else the
+// single pair (v, facts at its definition / at `at`).
+type altVal struct {
+	V     ssa.Value
+	Facts FactSet
+}
+
+func phiAlternatives(fn *ssa.Function, v ssa.Value, at ssa.Instruction) []altVal {
+	ff := FactsOf(fn)
+	var out []altVal
+	seen := map[*ssa.Phi]bool{}
+	var walk func(v ssa.Value, fs FactSet)
+	walk = func(v ssa.Value, fs FactSet) {
+		if ph, ok := v.(*ssa.Phi); ok && !seen[ph] {
+			seen[ph] = true
+			for i, e := range ph.Edges {
+				walk(e, ff.OnEdge(ph.Block().Preds[i], ph.Block()))
+			}
+			return
+		}
+		out = append(out, altVal{v, fs})
+	}
+	walk(v, ff.At(at))
+	return out
+}
